@@ -94,6 +94,7 @@ partial def loop (h : IO.FS.Stream) (s : Comp) (sros : List (Nat × List Nat)) (
       let pv := if p == "N" then none else p.toNat?
       let (w, a) := subscriptions s.w AD (nums req) pv
       IO.println (" ".intercalate (a.map fun v => toString v.ident)); loop h { s with w := w } sros
+  | ["baseq", _] => IO.println "ok"; loop h s sros
   | ["baseq"] => IO.println "ok"; loop h s sros        -- the object's base (outside the model: nothing of the history touches it)
   | ["probe"] => let r := probe s; IO.println s!"{r.1} {r.2}"; loop h s sros
   | _ => IO.println s!"bad {f}"; loop h s sros
